@@ -90,6 +90,7 @@ def decode(data: bytes) -> dict:
         case["host"] = "::1"          # TCP over the IPv6 loopback (peer names are 4-tuples there)
     if case["transport"] == "unix" and d.p(0.25):
         case["stale"] = True          # a socket file left behind at the address by an earlier process (asyncio replaces it)
+    case["log_debug"] = d.p(0.12)
     if d.p(0.3):
         # keyword arguments the server passes through to asyncio.start_server / start_unix_server
         case["kwargs"] = d.pick(SERVER_KWARGS)
@@ -625,7 +626,7 @@ class C19Engine(Engine):
                 fail("restart/unix-socket-file-left-behind", path)
 
         try:
-            _, out, err, error = run_in_fresh_loop(main)
+            _, out, err, error = run_in_fresh_loop(main, debug_log=bool(case.get("log_debug")))
         finally:
             shutil.rmtree(tmp, ignore_errors=True)
         if error and error.startswith("LIB:"):
